@@ -83,11 +83,40 @@ pub open spec fn of_form(lhs: Expression, rhs: Expression, result: Expression, s
     Expression::Trun(1, Box::new(Expression::Shr(Box::new(anded), Box::new(Expression::Constant(cw)))))
 }
 
+/// value level: msb( (a ^ b [^ ones]) & (a ^ res) ) is the signed-overflow bit
+pub proof fn lemma_of_value(w: nat, a: nat, b: nat, res: nat, subtract: bool)
+    requires w >= 2, a < pow2(w), b < pow2(w), res == (if subtract { bv_sub(w, a, b) } else { bv_add(w, a, b) }),
+    ensures
+        res < pow2(w),
+        nat_xor(a, b) < pow2(w),
+        nat_xor(nat_xor(a, b), (pow2(w) - 1) as nat) == pow2(w) - 1 - nat_xor(a, b),
+        ({ let t0 = if subtract { nat_xor(a, b) } else { (pow2(w) - 1 - nat_xor(a, b)) as nat };
+           let t = nat_and(t0, nat_xor(a, res));
+           t < pow2(w) && msb(w, t) % 2 == b2n(signed_overflow(w, a, b, subtract)) }),
+{
+    lemma_of_formula(w, a, b, res, subtract);
+    lemma_msb(w, a); lemma_msb(w, b); lemma_msb(w, res);
+    let t0 = nat_xor(a, b);
+    lemma_msb_xor(w, a, b);
+    lemma_msb(w, t0);
+    let t0n = (pow2(w) - 1 - t0) as nat;
+    lemma_msb_not(w, t0);
+    let t0x = if subtract { t0 } else { t0n };
+    let t1 = nat_xor(a, res);
+    lemma_msb_xor(w, a, res);
+    lemma_msb(w, t1);
+    lemma_pow2_pos(w);
+    let t = nat_and(t0x, t1);
+    lemma_msb_and(w, t0x, t1);
+    lemma_msb(w, t);
+    lemma_small_mod(msb(w, t), 2);
+}
+
 pub proof fn lemma_of_eval(lhs: Expression, rhs: Expression, result: Expression, subtract: bool, ones: Constant, cw: Constant, env: Env)
     requires
         expr_wf(lhs), expr_wf(rhs), expr_wf(result), expr_bits(lhs) == expr_bits(rhs), expr_bits(lhs) == expr_bits(result),
         expr_bits(lhs) >= 2, env_sorted(env),
-        ones.wf(), ones.bits as nat == expr_bits(lhs), ones.value@ == pow2(expr_bits(lhs)) - 1,
+        !subtract ==> (ones.wf() && ones.bits as nat == expr_bits(lhs) && ones.value@ == pow2(expr_bits(lhs)) - 1),
         cw.wf(), cw.bits as nat == expr_bits(lhs), cw.value@ == expr_bits(lhs) - 1,
     ensures of_ok(result, lhs, rhs, subtract, of_form(lhs, rhs, result, subtract, ones, cw), env),
 {
@@ -105,10 +134,10 @@ pub proof fn lemma_of_eval(lhs: Expression, rhs: Expression, result: Expression,
     let sh = Expression::Shr(Box::new(anded), Box::new(ccw));
     let whole = Expression::Trun(1, Box::new(sh));
     assert(whole == of_form(lhs, rhs, result, subtract, ones, cw));
-    assert(eval_spec(cones, env) == EvalR::Val(w, ones.value@));
+    assert(eval_spec(cones, env) == EvalR::Val(ones.bits as nat, ones.value@));
     assert(eval_spec(ccw, env) == EvalR::Val(w, cw.value@));
     assert(eval_spec(x0, env) == bin_spec(BinOp::Xor, eval_spec(lhs, env), eval_spec(rhs, env)));
-    assert(eval_spec(x0n, env) == bin_spec(BinOp::Xor, eval_spec(x0, env), EvalR::Val(w, ones.value@)));
+    assert(eval_spec(x0n, env) == bin_spec(BinOp::Xor, eval_spec(x0, env), eval_spec(cones, env)));
     assert(eval_spec(e1, env) == bin_spec(BinOp::Xor, eval_spec(lhs, env), eval_spec(result, env)));
     assert(eval_spec(anded, env) == bin_spec(BinOp::And, eval_spec(e0, env), eval_spec(e1, env)));
     assert(eval_spec(sh, env) == bin_spec(BinOp::Shr, eval_spec(anded, env), EvalR::Val(w, cw.value@)));
@@ -117,25 +146,17 @@ pub proof fn lemma_of_eval(lhs: Expression, rhs: Expression, result: Expression,
         if let EvalR::Val(wb, b) = eval_spec(rhs, env) {
             if let EvalR::Val(wr, res) = eval_spec(result, env) {
                 if res == (if subtract { bv_sub(w, a, b) } else { bv_add(w, a, b) }) {
-                    reveal(bv_xor); reveal(bv_and); reveal(bv_shr); reveal(bv_trun);
-                    lemma_of_formula(w, a, b, res, subtract);
-                    lemma_msb(w, a); lemma_msb(w, b); lemma_msb(w, res);
-                    let t0 = nat_xor(a, b);
-                    lemma_msb_xor(w, a, b);
-                    lemma_msb(w, t0);
-                    let t0n = (pow2(w) - 1 - t0) as nat;
-                    lemma_msb_not(w, t0);
-                    let t0x = if subtract { t0 } else { t0n };
-                    let t1 = nat_xor(a, res);
-                    lemma_msb_xor(w, a, res);
-                    lemma_msb(w, t1);
-                    lemma_pow2_pos(w);
-                    let t = nat_and(t0x, t1);
-                    lemma_msb_and(w, t0x, t1);
-                    lemma_msb(w, t);
+                    lemma_of_value(w, a, b, res, subtract);
                     lemma2_to64();
                     assert(pow2(1) == 2);
-                    lemma_small_mod(msb(w, t), 2);
+                    let t0 = if subtract { nat_xor(a, b) } else { (pow2(w) - 1 - nat_xor(a, b)) as nat };
+                    let t = nat_and(t0, nat_xor(a, res));
+                    assert(eval_spec(x0, env) == EvalR::Val(w, nat_xor(a, b))) by { reveal(bv_xor); }
+                    assert(eval_spec(e0, env) == EvalR::Val(w, t0)) by { reveal(bv_xor); }
+                    assert(eval_spec(e1, env) == EvalR::Val(w, nat_xor(a, res))) by { reveal(bv_xor); }
+                    assert(eval_spec(anded, env) == EvalR::Val(w, t)) by { reveal(bv_and); }
+                    assert(eval_spec(sh, env) == EvalR::Val(w, msb(w, t))) by { reveal(bv_shr); }
+                    assert(eval_spec(whole, env) == EvalR::Val(1, msb(w, t) % 2)) by { reveal(bv_trun); }
                 }
             }
         }
@@ -161,6 +182,29 @@ pub proof fn lemma_cf_eval(result: Expression, lhs: Expression, env: Env)
 
 impl<'s> Semantics<'s> {
 
+//@ fn impl<'s> Semantics<'s> :: fn new
+//@ spec
+    ensures /*@fields*/ r.mode == mode && r.instruction == instruction,
+//@ end
+
+//@ fn impl<'s> Semantics<'s> :: fn mode
+//@ spec
+    ensures /*@field*/ r == self.mode,
+//@ end
+
+//@ fn impl<'s> Semantics<'s> :: fn instruction
+//@ spec
+    ensures /*@field*/ r == self.instruction,
+//@ end
+
+//@ fn impl<'s> Semantics<'s> :: fn get_register
+//@ spec
+    ensures
+        /*@found*/ lookup(table_of(*self.mode), capstone_id) matches Some(k) ==> (r matches Ok(x) && *x == table_of(*self.mode)[k]),
+        /*@missing*/ lookup(table_of(*self.mode), capstone_id) is None ==> (r matches Err(e) && e is Custom),
+        /*@inv*/ r matches Ok(x) ==> x.rec_ok() && x.mode == *self.mode && x.capstone_reg == capstone_id,
+//@ end
+
 //@ fn impl<'s> Semantics<'s> :: fn set_zf
 //@ spec
     requires expr_wf(result), old(block).block_wf(), old(block).next_instruction_index < usize::MAX,
@@ -181,7 +225,8 @@ impl<'s> Semantics<'s> {
         let c = rhs_of(expr)->Constant_0;
         assert(expr_wf(Expression::Constant(c)));
         assert(expr_wf(expr) && expr_bits(expr) == 1);
-        assert forall|env: Env| env_sorted(env) implies #[trigger] zf_ok(result, expr, env) by { lemma_zf_eval(result, c, env); }
+        // (premises instead of plain facts: a wrong constant / operand then fails the named postcondition, not this proof block)
+        assert forall|env: Env| (env_sorted(env) && c.value@ == 0 && expr == Expression::Cmpeq(Box::new(result), Box::new(Expression::Constant(c)))) implies #[trigger] zf_ok(result, expr, env) by { lemma_zf_eval(result, c, env); }
     }
 //@ end
 
@@ -208,7 +253,8 @@ impl<'s> Semantics<'s> {
         assert(expr_wf(Expression::Constant(c)));
         assert(expr_wf(sh) && expr_bits(sh) == expr_bits(result));
         assert(expr_wf(expr) && expr_bits(expr) == 1);
-        assert forall|env: Env| env_sorted(env) implies #[trigger] sf_ok(result, expr, env) by { lemma_sf_eval(result, c, env); }
+        // (premises instead of plain facts: a wrong shift amount then fails the named postcondition `sign`, not this proof block)
+        assert forall|env: Env| (env_sorted(env) && expr_bits(result) >= 2 && c.value@ == expr_bits(result) - 1 && expr == Expression::Trun(1, Box::new(Expression::Shr(Box::new(result), Box::new(Expression::Constant(c)))))) implies #[trigger] sf_ok(result, expr, env) by { lemma_sf_eval(result, c, env); }
     }
 //@ end
 
@@ -252,9 +298,11 @@ impl<'s> Semantics<'s> {
         if w >= 2 {
             assert(expr_wf(Expression::Trun(1, Box::new(expr))));
             if w <= 64 {
-                assert(Expression::Trun(1, Box::new(expr)) == of_form(lhs, rhs, result, subtract, ones, cw));
-                assert forall|env: Env| env_sorted(env) implies #[trigger] of_ok(result, lhs, rhs, subtract, Expression::Trun(1, Box::new(expr)), env) by {
-                    lemma_of_eval(lhs, rhs, result, subtract, ones, cw, env);
+                // (a premise instead of an assertion: an expression of another shape then fails the named postcondition `overflow`)
+                if Expression::Trun(1, Box::new(expr)) == of_form(lhs, rhs, result, subtract, ones, cw) && cw.value@ == w - 1 {
+                    assert forall|env: Env| env_sorted(env) implies #[trigger] of_ok(result, lhs, rhs, subtract, Expression::Trun(1, Box::new(expr)), env) by {
+                        lemma_of_eval(lhs, rhs, result, subtract, ones, cw, env);
+                    }
                 }
             }
         }
@@ -275,7 +323,8 @@ impl<'s> Semantics<'s> {
 //@ before 0 `block.assign(scalar("CF", 1), expr)`
     proof {
         assert(expr_wf(expr) && expr_bits(expr) == 1);
-        assert forall|env: Env| env_sorted(env) implies #[trigger] cf_ok(result, lhs, expr, env) by { lemma_cf_eval(result, lhs, env); }
+        // (a premise instead of a plain fact: swapped operands then fail the named postcondition `borrow`)
+        assert forall|env: Env| (env_sorted(env) && expr == Expression::Cmpltu(Box::new(lhs), Box::new(result))) implies #[trigger] cf_ok(result, lhs, expr, env) by { lemma_cf_eval(result, lhs, env); }
     }
 //@ end
 
